@@ -1351,7 +1351,8 @@ def part_M(rng, tier, V, replay=None):
         cs = [e for e in events if e[0] == "c"]
         # which image does a sampling call's filter belong to?  the one whose centre tile it accepts
         start_used = tb[0][1] if tb else 1
-        centres = [T.toast_tile_for_point(start_used, math.radians(dec), math.radians(ra)) for ra, dec, _sc in specs]
+        # (at depth 6 a tile is about 1.4 degrees across; the images are 40 degrees and more apart)
+        centres = [T.toast_tile_for_point(6, math.radians(dec), math.radians(ra)) for ra, dec, _sc in specs]
 
         def owner(flt):
             if flt is None:
